@@ -594,7 +594,6 @@ func runC14(tier string, seed uint64, o *Out) error {
 	if tier == "thorough" {
 		nk, nq = 60000, 30000
 	}
-	c14Keys(rng, o, nk)
 	type job struct {
 		q    aquery
 		rows []arow
@@ -660,6 +659,25 @@ func runC14(tier string, seed uint64, o *Out) error {
 		if q.f.when != "" {
 			o.Count("when")
 		}
+		if len(q.f.part) > 0 {
+			seen := map[string]bool{}
+			for _, r := range jobs[i].rows {
+				seen[stream.VerifPartitionKey(q.f.part, r.gomap())] = true
+			}
+			capv := q.cap
+			if capv == 0 {
+				capv = 10000
+			}
+			if len(seen) > capv {
+				o.Count("partitions_above_cap")
+			} else {
+				o.Count("partitions_within_cap")
+			}
+		}
+		o.Count(fmt.Sprintf("rows_%d0s", len(jobs[i].rows)/10))
 	}
+	// key lines last: the driver reports only the first 200 bad lines, and the query lines are the ones the
+	// declarative checker can turn into a concrete failing input
+	c14Keys(rng, o, nk)
 	return nil
 }
